@@ -22,14 +22,14 @@ h_dhgen(void)
 	uint8_t * priv = malloc(CRYPTO_DH_PRIVLEN);
 	uint8_t * pub = malloc(CRYPTO_DH_PUBLEN);
 	__CPROVER_assume(pub != NULL && priv != NULL);
-	g_bn_secret_priv = priv;
-	size_t rcalls0 = g_dh_rand_calls;
+	g_bn.secret_priv = priv;
+	size_t rcalls0 = g_bn.rand_calls;
 	int rc;
 
 	rc = crypto_dh_generate(pub, priv);
 
 	VCOVER(rc == 0 && priv[0] == 0 && priv[31] == 0xff);
-	VCOVER(rc == -1 && g_dh_rand_calls == rcalls0 + 1);
-	VCOVER(rc == -1 && g_dh_rand_calls == rcalls0 + 2 && g_bn.nfail == nfail0);
+	VCOVER(rc == -1 && g_bn.rand_calls == rcalls0 + 1);
+	VCOVER(rc == -1 && g_bn.rand_calls == rcalls0 + 2 && g_bn.nfail == nfail0);
 	free(priv); free(pub);
 }
